@@ -31,8 +31,8 @@ type Options struct {
 	MemberCountQuorum int
 	ReadRepair        bool
 	Partitions        uint64
-	TableSize         int  // bytes; 0 = default (1 MiB)
-	Manual            bool // TRUE: push/balancer/janitor/compaction timers at one hour, the driver calls Sync()
+	TableSize         int           // bytes; 0 = default (1 MiB)
+	Manual            bool          // TRUE: push/balancer/janitor/compaction timers at one hour, the driver calls Sync()
 	Housekeeping      time.Duration // > 0: the janitor (empty fragments) and the compaction trigger run at this interval, also in manual mode
 	DMaps             func(*config.DMaps)
 	Tweak             func(*config.Config)
@@ -465,7 +465,12 @@ func (c *Cluster) WaitStable(timeout time.Duration, requireBalanced bool) error 
 		}
 		if ok && s == prev {
 			same++
-			if requireBalanced || same >= 3 {
+			// free-running clusters: the picture must stay the same for several periods of the push and balancer timers
+			need := 3
+			if !c.Opts.Manual {
+				need = 20
+			}
+			if requireBalanced || same >= need {
 				return nil
 			}
 		} else {
